@@ -568,7 +568,28 @@ func (env *SpecEnv) call(e *ast.CallExpr) *Val {
 			if v.Tag != nil {
 				env.failf("len of collection")
 			}
-			return &Val{T: mathInt, S: x.sliceLen(env.s, v)}
+			lt := x.sliceLen(env.s, v)
+			// type invariant of every Go slice/string value, also of values only the specification reads
+			// (e.g. a queue in the entry state that the function never loads itself)
+			closed := strings.HasPrefix(lt, "(")
+			for _, bv := range env.bound {
+				if strings.Contains(lt, bv) {
+					closed = false
+				}
+			}
+			for bv := range env.boundB {
+				if strings.Contains(lt, bv) {
+					closed = false
+				}
+			}
+			if closed {
+				sink := env.s
+				if x.specSink != nil {
+					sink = x.specSink
+				}
+				sink.assume(and(sx(">=", lt, "0"), sx("<", lt, pow2(63))))
+			}
+			return &Val{T: mathInt, S: lt}
 		case "implies":
 			return &Val{T: B, S: implies(env.term(env.eval(e.Args[0])), env.term(env.eval(e.Args[1])))}
 		case "iff":
